@@ -14,6 +14,7 @@ import (
 type VerifTransform struct {
 	P     int
 	F     func([]*server.Entity) ([]*server.Entity, error)
+	Pre   func([]*server.Entity) // runs before the call is recorded
 	mu    sync.Mutex
 	Calls [][]string // ids seen per transformEntities call
 }
@@ -23,6 +24,9 @@ func (t *VerifTransform) GetConfig() map[string]interface{} {
 }
 
 func (t *VerifTransform) transformEntities(runner *Runner, entities []*server.Entity, jobTag string) ([]*server.Entity, error) {
+	if t.Pre != nil {
+		t.Pre(entities)
+	}
 	ids := make([]string, len(entities))
 	for i, e := range entities {
 		ids[i] = e.ID
